@@ -283,34 +283,36 @@ class Bounds:
         return TOP
 
 
-def r26bcd(ctx, P):
-    f = P.fn(FFI + "::searchlite_search")
-    if not ctx.anchor("R26.b", f, "searchlite_search"):
-        return
-    ctx.saw(f)
-    ctx.rule("R26.b", "BOUND (abstract interpretation against buf_cap, not a source shape): every write through the output-buffer parameter "
-                      "is enumerated — stores through the pointer or through ptr::add/offset results, copy_nonoverlapping / copy / "
-                      "write_bytes counts, ptr::write, and slices made by from_raw_parts_mut (whose own accesses Rust bounds-checks) — and "
-                      "each extent is classified from ALL definitions of the locals involved (min, saturating_sub, +1, guarded -1, copies; "
-                      "a local redefined in a loop gets the join): offsets must be `< buf_cap`, counts and slice lengths `<= buf_cap`. "
-                      "Any other call that receives the output pointer is an unrecognised write. The copied bytes come from the encoded "
-                      "response without an offset, a zero byte is stored at the position equal to the copied count, and that count is "
-                      "what the function returns")
-    ctx.rule("R26.c", "GUARD: every write through the output-buffer parameter is dominated by the false arm of a `buf_cap == 0` test "
-                      "(the bound classes of R26.b assume buf_cap >= 1)")
-    ctx.rule("R26.d", "every other definition of the return value is a constant that is zero or negative")
-    sl = Slice(f)
-    sla = Slice(f, through_all_calls=True)
-    params = ptr_params(f)
-    out_params = [i for i in params if f.arg_ty(i).startswith("*mut ") and "c_char" in f.arg_ty(i) or f.arg_ty(i) == "*mut i8"]
-    cap_params = [i for i in range(1, f.arg_count + 1) if (f.locals[i].get("name") or "") == "buf_cap"]
-    if not (ctx.anchor("R26.b", out_params, "output buffer parameter (*mut c_char)") and ctx.anchor("R26.b", cap_params, "buf_cap parameter")):
-        return
-    outp, cap = out_params[-1], cap_params[0]
+def _root(f, o):
+    defs = f.defs()
+    l = op_local(o)
+    seen = set()
+    while l is not None and l not in seen:
+        seen.add(l)
+        dfs = [d for d in defs.get(l, []) if not d["partial"]]
+        if f.locals[l].get("name") or len(dfs) != 1 or dfs[0]["k"] != "assign":
+            return l
+        rv = dfs[0]["rv"]
+        if rv["k"] in ("use", "cast"):
+            nl = op_local(rv["a"])
+            if nl is None:
+                return l
+            l = nl
+        elif rv["k"] == "ref" and rv["place"]["p"] in ([], ["deref"]):
+            l = rv["place"]["l"]
+        else:
+            return l
+    return l
+
+
+def _scan_writer(P, f, outp, cap, depth=0):
+    """Enumerate and classify the writes through pointer parameter `outp` of f against capacity parameter `cap`.
+    Returns a dict: events [(Site, kind, needed, found, text)], unknown [(Site, text)], counts / nuls (root locals), write_blocks,
+    sources [(Site, operand)] of copies, delegations [(Site, callee Fn, result)], ret_roots, ret_bad, stable."""
     defs = f.defs()
     B = Bounds(f, cap)
-
-    # --- pointer aliases: base (offset 0) and offset pointers {local: offset operand}
+    sl = Slice(f)
+    sla = Slice(f, through_all_calls=True)
     base = {outp}
     offs = {}
     changed = True
@@ -330,46 +332,24 @@ def r26bcd(ctx, P):
                         base.add(l); changed = True
                     elif cal.endswith(("::add", "::wrapping_add")) and len(d["t"]["args"]) == 2:
                         offs[l] = d["t"]["args"][1]; changed = True
-    def root(o):
-        l = op_local(o)
-        seen = set()
-        while l is not None and l not in seen:
-            seen.add(l)
-            dfs = [d for d in defs.get(l, []) if not d["partial"]]
-            if f.locals[l].get("name") or len(dfs) != 1 or dfs[0]["k"] != "assign":
-                return l
-            rv = dfs[0]["rv"]
-            if rv["k"] in ("use", "cast"):
-                nl = op_local(rv["a"])
-                if nl is None:
-                    return l
-                l = nl
-            elif rv["k"] == "ref" and rv["place"]["p"] in ([], ["deref"]):
-                l = rv["place"]["l"]
-            else:
-                return l
-        return l
-
-    events = []      # (site, kind, class needed, class found, description)
-    unknown = []
-    counts, nuls = set(), set()
-    out_slices = set()   # locals holding &mut [u8] made from the output pointer
-    first_write_blocks = []
+    R = {"events": [], "unknown": [], "counts": set(), "nuls": set(), "write_blocks": [], "sources": [], "delegations": [],
+         "ret_roots": set(), "ret_bad": [], "bounds": B}
+    out_slices = set()
     for b, i, st in f.stmts():
         if st["k"] != "assign" or any("ub_checks" in m or "debug_assert" in m for m in st.get("macros", [])):
             continue
         dst = st["dst"]
         if dst["p"] and dst["p"][0] == "deref":
             if dst["l"] in base:
-                events.append((Site(f, b, i), "store at offset 0", LT, LT, "*out = .."))
-                first_write_blocks.append(b)
+                R["events"].append((Site(f, b, i), "store at offset 0", LT, LT, "*out = .."))
+                R["write_blocks"].append(b)
             elif dst["l"] in offs:
                 c = B.of_operand(offs[dst["l"]])
-                events.append((Site(f, b, i), "store at out.add(k)", LT, c, "k is %s" % CLS_NAME[c]))
-                first_write_blocks.append(b)
+                R["events"].append((Site(f, b, i), "store at out.add(k)", LT, c, "k is %s" % CLS_NAME[c]))
+                R["write_blocks"].append(b)
                 cz = op_const(st["rv"].get("a")) if st["rv"]["k"] == "use" else None
                 if cz is not None and cz.get("int") == 0:
-                    nuls.add(root(offs[dst["l"]]))
+                    R["nuls"].add(_root(f, offs[dst["l"]]))
     for b, t in f.calls():
         cal = callee_of(t)
         if any("ub_checks" in m or "debug_assert" in m for m in t.get("macros", [])):
@@ -384,29 +364,38 @@ def r26bcd(ctx, P):
             di, ci = WRITE_COUNT_CALLS[cal]
             if op_local(args[di]) in base:
                 c = B.of_operand(args[ci])
-                events.append((Site(f, b), cal.rsplit("::", 1)[1], LE, c, "count is %s" % CLS_NAME[c]))
-                first_write_blocks.append(b)
-                counts.add(root(args[ci]))
-                # prefix: the source derives from the encoded response, no pointer arithmetic, no range with a start
+                R["events"].append((Site(f, b), cal.rsplit("::", 1)[1], LE, c, "count is %s" % CLS_NAME[c]))
+                R["write_blocks"].append(b)
+                R["counts"].add(_root(f, args[ci]))
+                if not cal.endswith("write_bytes"):
+                    R["sources"].append((Site(f, b), args[0] if di == 1 else args[1]))
                 continue
             if op_local(args[di]) in offs:
-                unknown.append((Site(f, b), "%s into an offset of the output pointer" % cal.rsplit("::", 1)[1]))
+                R["unknown"].append((Site(f, b), "%s into an offset of the output pointer" % cal.rsplit("::", 1)[1]))
                 continue
-            continue   # the output pointer is only the source
+            continue
         if cal in WRITE_ONE_CALLS:
             a0 = op_local(args[0])
             c = LT if a0 in base else B.of_operand(offs[a0])
-            events.append((Site(f, b), cal.rsplit("::", 1)[1], LT, c, "offset is %s" % CLS_NAME[c]))
-            first_write_blocks.append(b)
+            R["events"].append((Site(f, b), cal.rsplit("::", 1)[1], LT, c, "offset is %s" % CLS_NAME[c]))
+            R["write_blocks"].append(b)
             continue
         if cal.endswith("slice::raw::from_raw_parts_mut") and op_local(args[0]) in base:
             c = B.of_operand(args[1])
-            events.append((Site(f, b), "from_raw_parts_mut", LE, c, "slice length is %s" % CLS_NAME[c]))
-            first_write_blocks.append(b)
+            R["events"].append((Site(f, b), "from_raw_parts_mut", LE, c, "slice length is %s" % CLS_NAME[c]))
+            R["write_blocks"].append(b)
             out_slices.add(t["dst"]["l"])
             continue
-        unknown.append((Site(f, b), "the output pointer is passed to %s" % cal))
-    # slices made from the output pointer: bounds-checked accesses only
+        # delegation to a workspace helper that receives the pointer and a capacity
+        g = P.fns.get(cal)
+        if g is not None and g.crate == FFI and depth < 2 and len(ptr_args) == 1 and op_local(args[ptr_args[0]]) in base:
+            cap_idx = [k for k, a in enumerate(args) if k != ptr_args[0] and "usize" in f.local_ty(op_local(a) or 0) and B.of_operand(a) == LE]
+            if len(cap_idx) == 1:
+                sub = _scan_writer(P, g, ptr_args[0] + 1, cap_idx[0] + 1, depth + 1)
+                R["delegations"].append((Site(f, b), g, t, sub))
+                R["write_blocks"].append(b)
+                continue
+        R["unknown"].append((Site(f, b), "the output pointer is passed to %s" % cal))
     changed = True
     while changed:
         changed = False
@@ -422,81 +411,159 @@ def r26bcd(ctx, P):
         cal = callee_of(t)
         if t["args"] and op_local(t["args"][0]) in out_slices:
             if "unchecked" in cal or cal.endswith(("::as_mut_ptr", "::as_mut_ptr_range")):
-                unknown.append((Site(f, b), "unchecked access %s on the slice over the output buffer" % cal))
+                R["unknown"].append((Site(f, b), "unchecked access %s on the slice over the output buffer" % cal))
             if cal.endswith("IndexMut<I>>::index_mut") or cal.endswith("::index_mut"):
                 for x in sl.sources(t["args"][1]):
                     if x[0] == "agg" and "RangeTo" in (x[3].get("adt") or "") and "Inclusive" not in (x[3].get("adt") or ""):
-                        counts.add(root(x[3]["ops"][0]))
+                        R["counts"].add(_root(f, x[3]["ops"][0]))
+            if cal.endswith("::copy_from_slice") and len(t["args"]) > 1:
+                R["sources"].append((Site(f, b), t["args"][1]))
+    for b, t in f.calls():
+        cal = callee_of(t)
+        if cal.endswith("::copy_from_slice") and len(t["args"]) > 1 and op_local(t["args"][0]) is not None and \
+                any(x[0] == "call" and callee_of(x[2]).endswith("from_raw_parts_mut") for x in sla.sources(t["args"][0])) and \
+                not any(s_.b == b for s_, _ in R["sources"]):
+            R["sources"].append((Site(f, b), t["args"][1]))
     for b, i, st in f.stmts():
         if st["k"] == "assign" and st["dst"]["l"] in out_slices:
             idx = [e["index"] for e in st["dst"]["p"] if isinstance(e, dict) and "index" in e]
             cz = op_const(st["rv"].get("a")) if st["rv"]["k"] == "use" else None
             if idx and cz is not None and cz.get("int") == 0:
-                nuls.add(root({"mv": {"l": idx[0], "p": []}}))
-    ctx.floor("R26.b", len(events), 1, "writes through the output buffer")
-    bad = [e for e in events if e[3] > e[2]]
-    # agreement of copied count, NUL position and return value; no redefinition after the first write
-    shared = counts & nuls
-    ret_roots = set()
-    ret_bad = []
+                R["nuls"].add(_root(f, {"mv": {"l": idx[0], "p": []}}))
     for d0 in defs.get(0, []):
         if d0["k"] == "assign" and d0["rv"]["k"] == "use":
             c = op_const(d0["rv"]["a"])
             if c is not None:
                 if (c.get("int") or 0) > 0:
-                    ret_bad.append(Site(f, d0["b"], d0["i"]))
+                    R["ret_bad"].append(Site(f, d0["b"], d0["i"]))
             else:
-                ret_roots.add(root(d0["rv"]["a"]))
+                R["ret_roots"].add(_root(f, d0["rv"]["a"]))
+        elif d0["k"] == "call":
+            R["ret_roots"].add(("call", d0["b"]))
         else:
-            ret_bad.append(Site(f, d0["b"], d0.get("i", TERM)))
-    agree = bool(shared) and ret_roots <= shared and bool(ret_roots)
-    stable = True
-    for r in shared:
+            R["ret_bad"].append(Site(f, d0["b"], d0.get("i", TERM)))
+    # the shared count is not redefined after the first write
+    R["stable"] = True
+    for r in R["counts"] & R["nuls"]:
         for d in defs.get(r, []):
-            if any(d["b"] in f.reachable_from(wb) and d["b"] != wb for wb in first_write_blocks):
-                stable = False
-    # prefix of the response
-    prefix = True
-    src_note = ""
-    for b, t in f.calls():
-        cal = callee_of(t)
-        srcop = None
-        if cal in WRITE_COUNT_CALLS and op_local(t["args"][WRITE_COUNT_CALLS[cal][0]]) in base:
-            srcop = t["args"][0] if WRITE_COUNT_CALLS[cal][0] == 1 else t["args"][1]
-        elif cal.endswith("::copy_from_slice") and op_local(t["args"][0]) is not None and \
-                any(x[0] == "call" and callee_of(x[2]).endswith("from_raw_parts_mut") for x in sla.sources(t["args"][0])):
-            srcop = t["args"][1]
-        if srcop is None or cal.endswith("write_bytes"):
-            continue
-        srcs = sla.sources(srcop)
-        from_resp = any(x[0] == "call" and "serde_json::ser::to_string" in callee_of(x[2]) or x[0] == "call" and callee_of(x[2]).endswith("to_string") and
-                        any("serde_json" in callee_of(y[2]) for y in sla.sources(x[2]["args"][0]) if y[0] == "call") for x in srcs) or \
-            any(x[0] == "call" and "serde_json" in callee_of(x[2]) for x in srcs)
-        shifted = [callee_of(x[2]) for x in srcs if x[0] == "call" and callee_of(x[2]).endswith(("::add", "::offset", "::sub", "::split_at", "::skip"))] + \
-                  [x[3].get("adt") for x in srcs if x[0] == "agg" and (x[3].get("adt") or "").endswith(("ops::range::Range", "ops::range::RangeFrom", "ops::range::RangeInclusive"))]
-        if not from_resp or shifted:
-            prefix = False
-            src_note = "source of the copy at %s %s" % (Site(f, b).loc(), "is shifted by %s" % shifted[0] if shifted else "does not derive from the encoded response")
-    ok_b = not bad and not unknown and agree and stable and prefix
+            if any(d["b"] in f.reachable_from(wb) and d["b"] != wb for wb in R["write_blocks"]):
+                R["stable"] = False
+    return R
+
+
+def _source_param_or_response(P, f, operand):
+    """('param', i) if the copy source is (derived without an offset from) parameter i; ('response',) if it derives from the encoded
+    response; ('shifted', what) / ('other',)."""
+    sla = Slice(f, through_all_calls=True)
+    srcs = sla.sources(operand)
+    shifted = [callee_of(x[2]) for x in srcs if x[0] == "call" and callee_of(x[2]).endswith(("::add", "::offset", "::sub", "::split_at", "::skip"))] + \
+              [x[3].get("adt") for x in srcs if x[0] == "agg" and (x[3].get("adt") or "").endswith(("ops::range::Range", "ops::range::RangeFrom", "ops::range::RangeInclusive"))]
+    if shifted:
+        return ("shifted", shifted[0])
+    if any(x[0] == "call" and "serde_json" in callee_of(x[2]) for x in srcs):
+        return ("response",)
+    args = sorted({x[1] for x in srcs if x[0] == "arg"})
+    if len(args) == 1:
+        return ("param", args[0])
+    return ("other",)
+
+
+def r26bcd(ctx, P):
+    f = P.fn(FFI + "::searchlite_search")
+    if not ctx.anchor("R26.b", f, "searchlite_search"):
+        return
+    ctx.saw(f)
+    ctx.rule("R26.b", "BOUND (abstract interpretation against buf_cap, not a source shape): every write through the output-buffer parameter "
+                      "is enumerated — stores through the pointer or through ptr::add/offset results, copy_nonoverlapping / copy / "
+                      "write_bytes counts, ptr::write, slices made by from_raw_parts_mut (whose own accesses Rust bounds-checks), and "
+                      "hand-offs to a helper of the crate together with a capacity (the helper is analysed the same way against its own "
+                      "capacity parameter) — and each extent is classified from ALL definitions of the locals involved (min, "
+                      "saturating_sub, +1, guarded -1, copies; a local redefined in a loop gets the join): offsets must be `< cap`, counts "
+                      "and slice lengths `<= cap`. Any other call that receives the output pointer is an unrecognised write. The copied "
+                      "bytes come from the encoded response without an offset, a zero byte is stored at the position equal to the copied "
+                      "count, and that count is what the function returns")
+    ctx.rule("R26.c", "GUARD: every write through the output-buffer parameter (or hand-off to a writing helper) is dominated by the false "
+                      "arm of a `buf_cap == 0` test (the bound classes of R26.b assume a capacity >= 1)")
+    ctx.rule("R26.d", "every other definition of the return value is a constant that is zero or negative")
+    sl = Slice(f)
+    params = ptr_params(f)
+    out_params = [i for i in params if f.arg_ty(i).startswith("*mut ") and "c_char" in f.arg_ty(i) or f.arg_ty(i) == "*mut i8"]
+    cap_params = [i for i in range(1, f.arg_count + 1) if (f.locals[i].get("name") or "") == "buf_cap"]
+    if not (ctx.anchor("R26.b", out_params, "output buffer parameter (*mut c_char)") and ctx.anchor("R26.b", cap_params, "buf_cap parameter")):
+        return
+    outp, cap = out_params[-1], cap_params[0]
+    defs = f.defs()
+    R = _scan_writer(P, f, outp, cap)
+    events = list(R["events"])
+    unknown = list(R["unknown"])
     why = []
-    for e in bad:
-        why.append("%s at %s: %s, needs %s" % (e[1], e[0].loc(), e[4], CLS_NAME[e[2]]))
-    for s_, h in unknown:
-        why.append("%s at %s" % (h, s_.loc()))
-    if not agree:
+    agree = stable = prefix = True
+    ret_bad = list(R["ret_bad"])
+    # --- delegations: the helper must satisfy the same obligations against its own capacity parameter
+    deleg_counts = set()
+    for site, g, t, sub in R["delegations"]:
+        ctx.saw(g)
+        for e in sub["events"]:
+            events.append((e[0], "%s in %s" % (e[1], g.short), e[2], e[3], e[4]))
+        unknown += sub["unknown"]
+        sh = sub["counts"] & sub["nuls"]
+        g_ret_ok = bool(sh) and sub["ret_roots"] and sub["ret_roots"] <= sh and not sub["ret_bad"]
+        if not g_ret_ok:
+            agree = False
+            why.append("in %s the copied count, the NUL position and the returned value are not the same value" % g.short)
+        if not sub["stable"]:
+            stable = False
+        for ssite, sop in sub["sources"]:
+            k = _source_param_or_response(P, g, sop)
+            if k[0] == "param":
+                kk = _source_param_or_response(P, f, t["args"][k[1] - 1])
+                if kk[0] != "response":
+                    prefix = False
+                    why.append("the bytes handed to %s at %s %s" % (g.short, site.loc(), "are shifted by %s" % kk[1] if kk[0] == "shifted" else "do not derive from the encoded response"))
+            elif k[0] != "response":
+                prefix = False
+                why.append("source of the copy at %s %s" % (ssite.loc(), "is shifted by %s" % k[1] if k[0] == "shifted" else "is not a plain parameter / the encoded response"))
+        deleg_counts.add(("call", site.b))
+    for ssite, sop in R["sources"]:
+        k = _source_param_or_response(P, f, sop)
+        if k[0] != "response":
+            prefix = False
+            why.append("source of the copy at %s %s" % (ssite.loc(), "is shifted by %s" % k[1] if k[0] == "shifted" else "does not derive from the encoded response"))
+    ctx.floor("R26.b", len(events), 1, "writes through the output buffer")
+    bad = [e for e in events if e[3] > e[2]]
+    shared = (R["counts"] & R["nuls"])
+    # the value returned: the shared count, or the result of a delegation (through copies)
+    ret_roots = set()
+    for r in R["ret_roots"]:
+        ret_roots.add(r)
+    for d0 in defs.get(0, []):
+        if d0["k"] == "assign" and d0["rv"]["k"] == "use" and op_const(d0["rv"]["a"]) is None:
+            r = _root(f, d0["rv"]["a"])
+            for dd in defs.get(r, []):
+                if dd["k"] == "call" and ("call", dd["b"]) in deleg_counts:
+                    ret_roots.discard(r)
+                    ret_roots.add(("call", dd["b"]))
+    allowed = shared | deleg_counts
+    if not (bool(allowed) and bool(ret_roots) and ret_roots <= allowed):
+        agree = False
         why.append("copied count, NUL position and return value are not the same value (count roots %s, NUL roots %s, returned %s)" % (
-            sorted(counts), sorted(nuls), sorted(ret_roots)))
+            sorted(map(str, R["counts"])), sorted(map(str, R["nuls"])), sorted(map(str, ret_roots))))
+    if not R["stable"]:
+        stable = False
     if not stable:
         why.append("the byte count is redefined after the first write")
-    if not prefix:
-        why.append(src_note)
+    for e in bad:
+        why.insert(0, "%s at %s: %s, needs %s" % (e[1], e[0].loc(), e[4], CLS_NAME[e[2]]))
+    for s_, h in unknown:
+        why.insert(0, "%s at %s" % (h, s_.loc()))
+    ok_b = not bad and not unknown and agree and stable and prefix
     ctx.ob("R26.b", "R26.b:searchlite_search:bounded-write", ok_b,
-           "%d write(s) through the output buffer, all within buf_cap: %s; the NUL sits at the copied count, which is returned" % (
+           "%d write(s) through the output buffer, all within the capacity: %s; the NUL sits at the copied count, which is returned" % (
                len(events), "; ".join("%s (%s)" % (e[1], e[4]) for e in events)) if ok_b else
            "write through the output buffer not proven within buf_cap: %s" % "; ".join(why),
            (bad[0][0].loc() if bad else unknown[0][0].loc() if unknown else events[0][0].loc() if events else "%s:%s" % (f.file, f.line)),
            {"events": [(e[0].loc(), e[1], e[4]) for e in events]})
-    # R26.c
+    # R26.c: guard at the write sites of this function (including hand-offs)
     cap_tests = []
     for b in sorted(f.reachable()):
         t = f.blocks[b]["term"]
@@ -509,11 +576,12 @@ def r26bcd(ctx, P):
                 vals = dict(zip(t["values"], t["targets"]))
                 if vals.get(0) is not None:
                     cap_tests.append(vals[0])
-    okc = bool(events) and all(any(f.dominates_block(ct_, e[0].b) for ct_ in cap_tests) for e in events)
+    wb = R["write_blocks"]
+    okc = bool(wb) and all(any(f.dominates_block(ct_, b_) for ct_ in cap_tests) for b_ in wb)
     ctx.ob("R26.c", "R26.c:searchlite_search:writes-guarded-by-capacity", okc,
            "every write through the output buffer happens only when buf_cap != 0" if okc else
            "a write through the output buffer is not dominated by the `buf_cap == 0` early return",
-           events[0][0].loc() if events else "%s:%s" % (f.file, f.line))
+           Site(f, wb[0]).loc() if wb else "%s:%s" % (f.file, f.line))
     # R26.d
     ctx.ob("R26.d", "R26.d:searchlite_search:early-returns", not ret_bad,
            "every early return yields the constant 0" if not ret_bad else "return value defined at %s is neither the byte count nor a zero/negative constant" % ret_bad[0].loc(),
